@@ -2,7 +2,7 @@ SPECIFICATION Spec
 CONSTANTS
   Export = ""
   MaxOps = 7
-  Budgets = {0, 2, 99}
+  Budgets = {0, 2, 3, 99}
 VIEW view
 INVARIANT NoRedialEnds
 PROPERTY EndedStays
